@@ -889,7 +889,7 @@ class OverlayStore(Store):
             if len(self.listdir(key)) == 0:
                 if self.overlay.contains(key):
                     self.overlay.removedir(key)
-                else:
+                if self.fallback.contains(key):
                     self.removed.add(key)
         self.on_removed(key)
 
